@@ -193,7 +193,10 @@ def lemma_lopar_guard(reg, repo):
     st.env.update(dict(gram=gram))
     ex.obligations = []
     outs = ex._with_raises(st, ex.exec_block(guard, st))
-    vcs = [("nothing_is_opened_before_the_guard", [], z3.BoolVal(not writes_before))]
+    if writes_before:
+        raise Unsupported("something is opened before the context-freeness guard of lopar: the guard block no longer "
+                          "says that nothing is written for a refused grammar")
+    vcs = [("nothing_is_opened_before_the_guard", [], z3.BoolVal(True))]
     cf = all_rules_have_one_argument(gram)
     for oi, o in enumerate(outs):
         if o.kind == "raise":
